@@ -6,6 +6,7 @@ import (
 	"encoding/json"
 	"flag"
 	"fmt"
+	"go/token"
 	"os"
 	"path/filepath"
 	"strconv"
@@ -26,6 +27,8 @@ func main() {
 		os.Exit(check(os.Args[2:]))
 	case "explain":
 		os.Exit(explain(os.Args[2:]))
+	case "anchors":
+		os.Exit(anchors(os.Args[2:]))
 	case "list":
 		if len(os.Args) > 2 && os.Args[2] == "-json" {
 			out := map[string]any{}
@@ -44,6 +47,41 @@ func main() {
 	default:
 		usage()
 	}
+}
+
+// anchors runs every rule once on the reference tree and writes the signature of each
+// unexported function anchor (the table embedded as internal/prog/anchor_sigs.json).
+func anchors(args []string) int {
+	fs := flag.NewFlagSet("anchors", flag.ExitOnError)
+	repo := fs.String("repo", "/repo", "repository to analyse")
+	out := fs.String("out", "", "file to write")
+	fs.Parse(args)
+	p, err := prog.Load(*repo, nil)
+	if err != nil {
+		fmt.Fprintf(os.Stderr, "NOT-ANALYSABLE %v\n", err)
+		return 2
+	}
+	for _, id := range rules.Properties() {
+		rules.Run(p, rules.Get(id), "quick")
+	}
+	tab := map[string]string{}
+	for spec, sig := range p.SeenSigs {
+		name := spec[strings.LastIndex(spec, ".")+1:]
+		if name != "" && !token.IsExported(name) {
+			tab[spec] = sig
+		}
+	}
+	b, _ := json.MarshalIndent(tab, "", " ")
+	if *out == "" {
+		fmt.Println(string(b))
+		return 0
+	}
+	if err := os.WriteFile(*out, append(b, '\n'), 0o644); err != nil {
+		fmt.Fprintln(os.Stderr, err)
+		return 2
+	}
+	fmt.Printf("%d unexported anchors\n", len(tab))
+	return 0
 }
 
 func usage() {
@@ -130,6 +168,9 @@ func check(args []string) int {
 		t0 := time.Now()
 		prop := rules.Get(id)
 		c := rules.Run(p, prop, *tier)
+		for spec, name := range p.Resolved {
+			c.Notes = append(c.Notes, "anchor "+spec+" no longer resolves by name; resolved by its signature to "+name)
+		}
 		extra := map[string]any{"load_s": loadS, "callgraph": p.CGKindIfBuilt(), "repo": *repo}
 		if *tier == "thorough" && !*noSelf && len(ov) == 0 {
 			st := rules.SelfTest(id, *repo, verifRoot())
